@@ -107,8 +107,9 @@ theorem C07_never_success_without_readback (c : HdrCfg) (replace skip : Bool) (i
     evaluated per case by the driver — the copyright part needs no such hypothesis: it is
     proved from the line structure), then extraction of the **whole written text** yields
     everything requested and everything the replaced header declared.
-    Full statement (not proved): the same without `tagsCompose`, and with lint's 4096-byte window
-    (`hdr` must lie inside it: known finding c07-header-beyond-window). -/
+    Superseded by `C07_file` (`tagsCompose` replaced by a condition on the header block alone that is
+    proved sufficient), `C07_file_default` (no hypothesis on the block for the default template) and
+    `C07_file_window` (lint's 4096-byte window); kept because C09 uses it. -/
 theorem C07_file_partial (c : HdrCfg) (replace skip : Bool) (info : Extracted) (text t : Text)
     (hmerge : c.merge = false) (hnorm : ∀ x, c.normLic (c.normLic x) = c.normLic x)
     (hle : detectLineEnding text = ['\n'])
